@@ -342,7 +342,9 @@ func visitInstr(fr *frame, instr ssa.Instruction) continuation {
 		fr.env[instr] = slice[:fr.i.concreteInt(fr.get(instr.Len), 0, capv, "make len")]
 
 	case *ssa.MakeMap:
-		fr.env[instr] = makeMap(instr.Type().Underlying().(*types.Map).Key(), 0)
+		mm := makeMap(instr.Type().Underlying().(*types.Map).Key(), 0).(*omap)
+		mm.i = fr.i
+		fr.env[instr] = mm
 
 	case *ssa.Range:
 		fr.env[instr] = rangeIter(fr.get(instr.X), instr.X.Type())
